@@ -129,6 +129,24 @@ func (s *Spec) num(k string, def int) int {
 }
 
 // Caps is the capability set of a built tree.
+// AcksEarly reports whether the tree contains a replica store that acknowledges a write before all
+// of its replicas have it (minWritesForSuccess < number of replicas): the remaining writes finish in
+// the background, so a blob may re-appear after a later remove (documented design of the replica
+// store; C12 decides the quorum rule itself).
+func (s *Spec) AcksEarly() bool {
+	if s.Kind == "replica" {
+		if m := s.num("minWrites", 0); m > 0 && m < len(s.Kids) {
+			return true
+		}
+	}
+	for _, k := range s.Kids {
+		if k.AcksEarly() {
+			return true
+		}
+	}
+	return false
+}
+
 type Caps struct {
 	Receive  bool // accepts ReceiveBlob
 	Remove   bool // supports RemoveBlobs
